@@ -57,7 +57,7 @@ def run(ck):
                     direct.append('%s:%d: %s' % (os.path.relpath(os.path.join(root, fn), REPO), ln, line.strip()[:120]))
     ck.obligation('no direct relational comparison of two order hints in Source/Lib (all ordering goes through the proved distance helpers)', not direct, '; '.join(direct[:4]))
     # 2. prove
-    ck.prove('Properties_C22', extra_modules=['Proofs_C22', 'RelDistSpec'], gen_modules=['RelDistGen'])
+    ck.prove('Properties_C22', extra_modules=['Proofs_C22', 'RelDistSpec', 'RelDistOrder'], gen_modules=['RelDistGen'])
     # 3. correspondence + search: exhaustive run of the real C text of every copy against the spec and the generated model
     maxbits = 8 if ck.tier == 'quick' else 10
     src, err = make_harness()
